@@ -287,3 +287,136 @@ Fixpoint skipped_depth (env : senv) (t : ty) (w : tv) {struct w} : nat :=
       end
   | _ => O
   end.
+
+(* ------------------------------------------------------------------------ *)
+(* What a value looks like after encode + decode: the documented
+   normalisations and nothing else.  [prior] is the content of the slot the
+   decoder fills (a fresh destination at the top, zero values inside
+   containers): an omitted optional field keeps it. *)
+Definition enum_fix (t : ty) (x : N) : N := match t with TEnum => sext32 (low32 x) | _ => x end.
+
+Fixpoint norm (env : senv) (t : ty) (v : val) (prior : val) {struct v} : val :=
+  match v with
+  | VS x => VS (enum_fix t x)
+  | VB _ s => VB false s
+  | VL None => VL (Some [])
+  | VL (Some l) =>
+      match t with
+      | TList _ e => VL (Some (map (fun x => norm env e x (zero_of env e)) l))
+      | _ => v
+      end
+  | VM None => VM (Some [])
+  | VM (Some m) =>
+      match t with
+      | TMap kt vt =>
+          VM (Some (fold_left (fun acc (kv : val * val) =>
+                                 ainsert kt acc (norm env kt (fst kv) (zero_of env kt))
+                                                (norm env vt (snd kv) (zero_of env vt))) m []))
+      | _ => v
+      end
+  | VP None =>
+      (* a nil struct pointer is written as an empty struct and comes back as a
+         pointer to a default-initialised struct *)
+      match t with
+      | TPtr (TStruct sid) =>
+          match lookup_sd env sid with
+          | Some sd => VP (Some (apply_init sd (zero_of env (TStruct sid))))
+          | None => v
+          end
+      | _ => v
+      end
+  | VP (Some v') =>
+      match t with
+      | TPtr t' => VP (Some (norm env t' v' (zero_of env t')))
+      | _ => v
+      end
+  | VT fs h =>
+      match t with
+      | TStruct sid =>
+          match lookup_sd env sid with
+          | Some sd =>
+              match apply_init sd prior with      (* nested structs get their defaults first *)
+              | VT ps ph =>
+                  VT ((fix go (fds : list field) (vs ps : list val) {struct vs} : list val :=
+                         match vs, fds, ps with
+                         | v' :: vr, f :: fr, p :: pr =>
+                             (if emits f v' then norm env (fty f) v' p else p) :: go fr vr pr
+                         | _, _, _ => []
+                         end) (sfields sd) fs ps) ph
+              | _ => v
+              end
+          | None => v
+          end
+      | _ => v
+      end
+  end.
+
+(* top level: the destination is default-initialised by the caller *)
+Definition norm_top (env : senv) (sid : N) (v : val) : val := norm env (TStruct sid) v (fresh env sid).
+
+(* enum values fit in 32 bits *)
+Fixpoint enums32 (env : senv) (t : ty) (v : val) {struct v} : bool :=
+  match v with
+  | VS x => match t with TEnum => enum32 x | _ => true end
+  | VB _ _ => true
+  | VL None | VM None | VP None => true
+  | VL (Some l) => match t with TList _ e => forallb (enums32 env e) l | _ => true end
+  | VM (Some m) =>
+      match t with
+      | TMap kt vt => forallb (fun kv : val * val => enums32 env kt (fst kv) && enums32 env vt (snd kv)) m
+      | _ => true
+      end
+  | VP (Some v') => match t with TPtr t' => enums32 env t' v' | _ => true end
+  | VT fs _ =>
+      match t with
+      | TStruct sid =>
+          match lookup_sd env sid with
+          | Some sd => fields_all (fun f v' => enums32 env (fty f) v') (sfields sd) fs
+          | None => true
+          end
+      | _ => true
+      end
+  end.
+
+(* the value does not lack a required field: a nil struct pointer that is
+   written (as an empty struct) must not point to a type with required fields *)
+Fixpoint req_complete (env : senv) (t : ty) (v : val) {struct v} : bool :=
+  match v with
+  | VS _ | VB _ _ => true
+  | VL None | VM None => true
+  | VP None =>
+      match t with
+      | TPtr (TStruct sid) =>
+          match lookup_sd env sid with
+          | Some sd => match required_ids sd with [] => true | _ => false end
+          | None => true
+          end
+      | _ => true
+      end
+  | VL (Some l) => match t with TList _ e => forallb (req_complete env e) l | _ => true end
+  | VM (Some m) =>
+      match t with
+      | TMap kt vt => forallb (fun kv : val * val => req_complete env kt (fst kv) && req_complete env vt (snd kv)) m
+      | _ => true
+      end
+  | VP (Some v') => match t with TPtr t' => req_complete env t' v' | _ => true end
+  | VT fs _ =>
+      match t with
+      | TStruct sid =>
+          match lookup_sd env sid with
+          | Some sd => fields_all (fun f v' => negb (emits f v') || req_complete env (fty f) v') (sfields sd) fs
+          | None => true
+          end
+      | _ => true
+      end
+  end.
+
+Fixpoint holders_empty (v : val) : bool :=
+  match v with
+  | VS _ | VB _ _ => true
+  | VL None | VM None | VP None => true
+  | VL (Some l) => forallb holders_empty l
+  | VM (Some m) => forallb (fun kv : val * val => holders_empty (fst kv) && holders_empty (snd kv)) m
+  | VP (Some v') => holders_empty v'
+  | VT fs h => match h with [] => forallb holders_empty fs | _ => false end
+  end.
